@@ -58,7 +58,11 @@ func runBidiCase[K comparable](c *core.Ctx, kind string, d *Dom[K]) {
 		case 2:
 			m.Remove(d.Probe[r.Intn(len(d.Probe))])
 		case 3:
-			m.Get(d.AnyVal(r))
+			if r.Bool() {
+				m.GetKey()
+			} else {
+				m.Get(d.AnyVal(r))
+			}
 		default:
 			if nv > 50 {
 				m.Get(d.AnyVal(r)) // a Clear every ~50 calls would keep a wide map small
